@@ -53,6 +53,9 @@ def make_keymap(spec):
     if cls == 'stringmap':
         return km.stringmap(encoding=opt, **kw)
     if cls == 'picklemap':
+        if opt == 'dill-module':
+            import dill
+            return km.picklemap(serializer=dill, **kw)      # the module form the docstring asks for
         return km.picklemap(serializer=opt, **kw)
     raise ValueError(cls)
 
